@@ -11,6 +11,9 @@ mod suites;
 mod util;
 
 use std::io::BufRead;
+
+#[global_allocator]
+static GLOBAL: suites::alloc::Counting = suites::alloc::Counting;
 use util::*;
 
 fn exec_line(line: &str, out: &mut Out) -> Option<()> {
@@ -28,6 +31,7 @@ fn exec_line(line: &str, out: &mut Out) -> Option<()> {
         #[cfg(feature = "full")]
         "tree" | "hist" => suites::tree::exec(op, &args, out),
         "cmp" => suites::cmp::exec(op, &args, out),
+        "alloc" => suites::alloc::exec(op, &args, out),
         #[cfg(feature = "full")]
         "conv" | "tint" => suites::conv::exec(op, &args, out),
         _ => None,
@@ -55,6 +59,7 @@ fn main() {
                 "buf" => suites::buf::gen(tier, &mut rng, &mut emit),
                 "index" => suites::index::gen(tier, &mut rng, &mut emit),
                 "cmp" => suites::cmp::gen(tier, &mut rng, &mut emit),
+                "alloc" => suites::alloc::gen(tier, &mut rng, &mut emit),
                 #[cfg(feature = "full")]
                 "conv" => suites::conv::gen(tier, &mut rng, &mut emit),
                 #[cfg(feature = "full")]
